@@ -62,7 +62,9 @@ PROPS = {
         "drivers": [drv("div", "debug"), drv("div", "release", tiers=T)],
     },
     "C07": {
-        "mc": L0_QUICK + L0_THOROUGH,
+        "mc": L0_QUICK + L0_THOROUGH + [
+            algo("BitOps.tla", "BitOps_q.cfg"), algo("BitOps.tla", "BitOps_cal1.cfg", expect="violation"),
+            algo("BitOps.tla", "BitOps_t.cfg", workers=14, tiers=T)],
         "drivers": [drv("bits", "debug"), drv("bits", "release", tiers=T)],
     },
     "C09": {
